@@ -480,6 +480,25 @@ func genC20(p *pkgInfo, l *leanFile) {
 	}
 	l.pf("]\n\n")
 
+	// ---- e-mail discovery: which account functions does mostRecentAccountEmail call?
+	var disc []string
+	if fd := p.funcs["ACMEIssuer.mostRecentAccountEmail"]; fd != nil {
+		ast.Inspect(fd.Body, func(n ast.Node) bool {
+			if c, ok := n.(*ast.CallExpr); ok {
+				name := types.ExprString(c.Fun)
+				for _, f := range []string{"getAccount", "GetAccount", "loadAccount", "newAccount", "saveAccount"} {
+					if strings.HasSuffix(name, "."+f) {
+						disc = append(disc, f)
+					}
+				}
+			}
+			return true
+		})
+	} else {
+		miss("mostRecentAccountEmail")
+	}
+	l.pf("/-- account functions called by mostRecentAccountEmail (PreCheck's e-mail discovery) -/\ndef emailDiscoveryCalls : List String := %s\n\n", leanStrList(disc))
+
 	// ---- SubjectIsInternal tables
 	var nets, sufs []string
 	exact := "<none>"
